@@ -210,7 +210,7 @@ func genC20(r *Rng, e *Emitter, n int) {
 				offGrid = true
 			}
 		}
-		thrChoices := []float64{0, 0, 0.5, 1, 1.5, 2, math.Sqrt2, 3, 4, 10, float64(grid)}
+		thrChoices := []float64{0, 0, math.Copysign(0, -1), 0.5, 1, 1.5, 2, math.Sqrt2, 3, 4, 10, float64(grid)} // (-0 is zero)
 		thr := thrChoices[r.Intn(len(thrChoices))]
 		if shape == 6 {
 			thr = []float64{0, 0.5, 2, 4, 8}[r.Intn(5)]
